@@ -1,3 +1,76 @@
-(* C16 — property theorems. *)
+(* C16 — property theorems.  Only statements, [exact lemma] and Print Assumptions. *)
 From Coq Require Import ZArith List.
 From FV Require Import C16.Model C16.Proofs.
+Import ListNotations.
+Open Scope Z_scope.
+
+(* Coverage tables built from a glyph list answer membership and coverage index exactly as the
+   (sorted, de-duplicated) set, in either binary format, in both arithmetic profiles
+   (strict = overflow checks: no panic), through the real binary-search readers. *)
+Theorem coverage_get_spec : forall (G : list Z) (g : Z) (fmt2 strict : bool), Forall u16 G ->
+  cov_get strict (cov_build_fmt fmt2 G) g = gres_of (index_of g (sort_dedup G)).
+Proof. exact cov_get_build_fmt. Qed.
+Theorem coverage_get_spec_chosen_format : forall (G : list Z) (g : Z) (strict : bool), Forall u16 G ->
+  cov_get strict (cov_build G) g = gres_of (index_of g (sort_dedup G)).
+Proof. exact cov_get_build. Qed.
+Theorem coverage_format_choice_irrelevant : forall (G : list Z) (g : Z) (fmt2 strict : bool), Forall u16 G ->
+  cov_get strict (cov_build G) g = cov_get strict (cov_build_fmt fmt2 G) g.
+Proof. exact cov_format_choice_irrelevant. Qed.
+Theorem coverage_membership : forall (G : list Z) (g : Z) (strict : bool), Forall u16 G ->
+  (cov_get strict (cov_build G) g = GNone <-> ~ In g G) /\
+  (forall i, cov_get strict (cov_build G) g = GSome i -> In g G).
+Proof. exact cov_membership. Qed.
+Theorem sort_dedup_is_the_set : forall (G : list Z) (y : Z), In y (sort_dedup G) <-> In y G.
+Proof. exact sort_dedup_in. Qed.
+
+(* Class definitions built from (glyph, class) assignments answer the class given (0 for unassigned), in either
+   format.  [cd_spec] = the last non-zero assignment of the glyph (BTreeMap semantics); when every glyph is
+   assigned once it is literally the assignment given. *)
+Theorem classdef_get_spec : forall (input : list (Z * Z)) (g : Z) (fmt1 : bool),
+  cd_get (cd_build_fmt fmt1 input) g = cd_spec input g.
+Proof. exact cd_get_build_fmt. Qed.
+Theorem classdef_get_spec_chosen_format : forall (input : list (Z * Z)) (g : Z),
+  cd_get (cd_build input) g = cd_spec input g.
+Proof. exact cd_get_build. Qed.
+Theorem classdef_format_choice_irrelevant : forall (input : list (Z * Z)) (g : Z) (fmt1 : bool),
+  cd_get (cd_build input) g = cd_get (cd_build_fmt fmt1 input) g.
+Proof. exact cd_format_choice_irrelevant. Qed.
+Theorem classdef_spec_is_assignment : forall (input : list (Z * Z)) (g c : Z),
+  NoDup (map fst input) -> In (g, c) input -> cd_spec input g = c.
+Proof. exact cd_spec_nodup. Qed.
+Theorem classdef_spec_unassigned_is_zero : forall (input : list (Z * Z)) (g : Z),
+  ~ In g (map fst input) -> cd_spec input g = 0.
+Proof. exact cd_spec_unassigned. Qed.
+
+(* splitting.rs split_coverage on a well-formed coverage table (either format): the piece [a, b) answers
+   k - a exactly for the glyphs whose old coverage index k lies in [a, b), nothing otherwise, and stays well-formed *)
+Theorem split_coverage_preserves : forall (c : cov) (a b : Z) (c' : cov), cov_wf c -> 0 <= a -> a < b ->
+  split_coverage c a b = Some c' ->
+  cov_wf c' /\ forall g, cov_sem c' g = window a b (cov_sem c g).
+Proof. exact split_coverage_spec. Qed.
+Theorem coverage_reader_is_cov_sem : forall (c : cov) (g : Z), cov_wf c -> cov_idx c g = cov_sem c g.
+Proof. exact cov_idx_sem. Qed.
+Theorem built_coverage_is_wf : forall (G : list Z), Forall u16 G -> forall f, cov_wf (cov_build_fmt f G).
+Proof. exact cov_build_wf. Qed.
+
+(* split_pair_pos_format_1 at ANY strictly increasing split points ending at the pair-set count: the
+   first-match lookup over the pieces equals the lookup in the original subtable, for every glyph pair *)
+Theorem split_pp1_preserves : forall (V : Type) (t : pp1 V) (sps : list Z) (ps : list (pp1 V)) (g1 g2 : Z),
+  cov_wf (pp1_cov t) -> chain 0 sps (zlen (pp1_sets t)) -> split_pp1 sps t = Some ps ->
+  first_some (fun p => pp1_lookup p g1 g2) ps = pp1_lookup t g1 g2.
+Proof. exact @split_pp1_preserves_lemma. Qed.
+
+Print Assumptions coverage_get_spec.
+Print Assumptions coverage_get_spec_chosen_format.
+Print Assumptions coverage_format_choice_irrelevant.
+Print Assumptions coverage_membership.
+Print Assumptions sort_dedup_is_the_set.
+Print Assumptions classdef_get_spec.
+Print Assumptions classdef_get_spec_chosen_format.
+Print Assumptions classdef_format_choice_irrelevant.
+Print Assumptions classdef_spec_is_assignment.
+Print Assumptions classdef_spec_unassigned_is_zero.
+Print Assumptions split_coverage_preserves.
+Print Assumptions coverage_reader_is_cov_sem.
+Print Assumptions built_coverage_is_wf.
+Print Assumptions split_pp1_preserves.
